@@ -113,6 +113,9 @@ def _frame_ok(text, message):
 
 # ---------------------------------------------------------------- manual mode, symbolic clock
 
+MSG_KINDS = ["m%d", "{elapsed} left %d", "took {indicator} %d", "{message}%d {x}"]
+
+
 def manual(d1: int, d2: int, d3: int, d4: int, d5: int, k: int) -> bool:
     """
     pre: d1 >= 0 and d2 >= 0 and d3 >= 0 and d4 >= 0 and d5 >= 0
@@ -134,9 +137,10 @@ def manual(d1: int, d2: int, d3: int, d4: int, d5: int, k: int) -> bool:
             return orig(message)
 
         pi._overwrite = spy
+        mk = MSG_KINDS[PART.get("mk", 0)]        # message family: plain, or texts that look like the format's own placeholders
         cause = ["start"]
-        pi.start("m0")
-        msg = "m0"
+        pi.start(mk % 0)
+        msg = mk % 0
         last_adv_draw = clock.t                      # start() draws and arms the first deadline one interval later
         for i, (op, d) in enumerate(zip(ops, (d1, d2, d3, d4, d5))):
             clock.t = clock.t + d
@@ -152,7 +156,7 @@ def manual(d1: int, d2: int, d3: int, d4: int, d5: int, k: int) -> bool:
                     return False                     # ... and does redraw once the interval has passed
             else:
                 cause[0] = "set_message"
-                msg = "m%d" % (i + 1)
+                msg = mk % (i + 1)
                 pi.set_message(msg)
                 if len(frames) != n + 1:
                     return False
@@ -401,6 +405,10 @@ def conditions(tier):
     for ops in shapes:
         conds.append({"name": "manual[%s]" % ops, "fn": manual, "timeout": t, "part": {"ops": ops},
                       "bounds": "start, then %s (a = advance, s = set_message), finish; every clock advance any int >= 0 s; interval any k*1000 ms, 1 <= k <= 3600" % ops})
+    for mk in (1, 2, 3):
+        for ops in (("as", "sa") if quick else ("as", "sa", "asa", "saas")):
+            conds.append({"name": "manual[%s,messages like %r]" % (ops, MSG_KINDS[mk]), "fn": manual, "timeout": t, "part": {"ops": ops, "mk": mk},
+                          "bounds": "as manual[%s], with messages of the form %r (text that looks like a placeholder of the frame format is still just the message)" % (ops, MSG_KINDS[mk])})
     conds.append({"name": "manual_twin", "fn": manual_twin, "timeout": t, "expect": "refute", "part": {"ops": "aaa"}, "bounds": "reachability twin"})
     conds.append({"name": "manual_plain", "fn": manual_plain, "timeout": t, "bounds": "plain output: symbolic clock, no redraw by advancing, no control codes"})
     for ex in range(3):
